@@ -181,7 +181,7 @@ def main():
             "evidence_file": "/verif/evidence/%s.json" % pid,
             "replay_cmd_template": "./check %s --explain {path}" % pid,
             "engine": "nrfsa",
-            "level_claimed": {"category": "other", "text": c["text"], "design_ref": c["ref"]},
+            "level_claimed": {"category": "other", "text": c["text"] + " The check also re-runs the rules of the layers below that this property relies on (listed with the rules added after the seeding rounds in DESIGN.md 10.2 and 10.5); what each run covered is in the evidence file.", "design_ref": c["ref"] + "; section 10.2, 10.5"},
             "level_note": NOTE,
             "technique": c["technique"],
         })
